@@ -10,4 +10,4 @@ def register(name):
     return deco
 
 
-from . import queue, conserve, lostwake, buffers, batching, cycles, machine, holdings, values, records, routing, maint  # noqa: E402,F401
+from . import queue, conserve, lostwake, buffers, batching, cycles, machine, holdings, values, records, routing, maint, observer  # noqa: E402,F401
